@@ -556,6 +556,78 @@ def r07_5(ctx, counts) -> RuleResult:
     return res
 
 
+def r07_6(ctx, counts) -> RuleResult:
+    """general comparison: both integer and decimal operands are promoted against a double"""
+    model: Model = ctx.model
+    res = RuleResult(
+        'R07.6', 'NUMERIC-PROMOTION-SIBLINGS',
+        'In a general comparison a numeric operand is promoted to xs:double when the other one '
+        'is an xs:double/xs:float (XPath 3.1 B.1); Python compares an int with a float exactly. '
+        'In the class dispatch of XPathToken.iter_comparison_data the float case converts both '
+        'its Decimal and its Integer partner (a yield of a converted pair under '
+        '`isinstance(op2, decimal.Decimal)` and under `isinstance(op2, Integer | int)`), and the '
+        'Integer and Decimal cases each convert themselves under `isinstance(op2, float)`. The '
+        'decimal pair was there, the integer pair was not: 9007199254740993 = '
+        '9007199254740992e0 was false while `eq` (which promotes) was true.')
+    f = model.find_class('XPathToken').methods.get('iter_comparison_data')
+    if f is None:
+        raise AnalysisError('XPathToken.iter_comparison_data vanished')
+    matches = [x for x in walk_local(f.node) if isinstance(x, ast.Match)]
+    if len(matches) != 1:
+        raise AnalysisError(f'iter_comparison_data: {len(matches)} match statements (the class '
+                            f'dispatch idiom changed)')
+    cases: dict[str, ast.match_case] = {}
+    for c in matches[0].cases:
+        pats = c.pattern.patterns if isinstance(c.pattern, ast.MatchOr) else [c.pattern]
+        for p_ in pats:
+            if isinstance(p_, ast.MatchClass):
+                cases[dotted(p_.cls).split('.')[-1]] = c
+
+    def promoted_partners(case: ast.match_case) -> set[str]:
+        """classes K such that under isinstance(op2, K) the case yields a converted pair"""
+        out: set[str] = set()
+        for st in ast.walk(case):
+            if not isinstance(st, ast.If):
+                continue
+            chain = [st]
+            for test_owner in chain:
+                t = test_owner.test
+                if isinstance(t, ast.Call) and dotted(t.func) == 'isinstance' and len(t.args) == 2:
+                    ys = [y for b in test_owner.body for y in ast.walk(b)
+                          if isinstance(y, ast.Yield) and isinstance(y.value, ast.Tuple)
+                          and any(isinstance(e, ast.Call) for e in y.value.elts)]
+                    if ys:
+                        k = t.args[1]
+                        for e in (k.elts if isinstance(k, ast.Tuple) else [k]):
+                            out.add(dotted(e).split('.')[-1])
+        return out
+    n = 0
+    need = {'float': {'Decimal', ('Integer', 'int')}, 'Integer': {'float'}, 'Decimal': {'float'}}
+    for cname, partners in need.items():
+        case = cases.get(cname)
+        if case is None:
+            if cname == 'Integer' and 'int' in cases:
+                case = cases['int']
+            else:
+                raise AnalysisError(f'iter_comparison_data: no case for {cname}')
+        have = promoted_partners(case)
+        for p_ in partners:
+            n += 1
+            alts = p_ if isinstance(p_, tuple) else (p_,)
+            ok = any(a in have for a in alts)
+            res.instances.append(f'case {cname}(): partner {"/".join(alts)} promoted: {ok}')
+            if ok:
+                res.ok()
+            else:
+                res.fail(finding('R07.6', f, case.pattern, f'{cname} vs {alts[0]} not promoted',
+                                 f'the `case {cname}()` of the general-comparison dispatch yields '
+                                 f'no converted pair under isinstance(op2, {alts[0]}): the two '
+                                 f'values are compared as they are (an int and a float exactly), '
+                                 f'unlike the value comparison and unlike its sibling cases'))
+    counts['promotion_pairs'] = n
+    return res
+
+
 def run(ctx) -> dict:
     model: Model = ctx.model
     lat = Lattice(model)
@@ -667,7 +739,7 @@ def run(ctx) -> dict:
     counts['virtual_relations'] = len(lat.virtual)
     return {
         'results': [res, r07_2(ctx, counts), r07_3(ctx, counts), r07_4(ctx, counts),
-                    r07_5(ctx, counts)] + _shared(ctx, counts),
+                    r07_5(ctx, counts), r07_6(ctx, counts)] + _shared(ctx, counts),
         'counts': counts,
         'explanation':
             'Dispatch-order soundness, decided over the class lattice of the source model: in '
